@@ -52,3 +52,24 @@ CONTRACTS.append(Contract(
                       "values": {"j0": ["0", "1", "2"]}}},
     notes="ghost index j0; Pattern.match(s, pos) modelled as a match on s[pos:] (pattern without "
           "anchors / look-behind, checked on the parse tree); minimum match width from sre"))
+
+
+# ---------------------------------------------------------------------------------------
+# tal.parse_substitution (C11 / C12): the expression of tal:content / tal:replace / tal:on-error is cut
+# out of the statement value itself (parser.groups is executed in place: `token[j:k]` for the spans of
+# the match), so the position an error in it is reported at is the position of its text in the source
+# ---------------------------------------------------------------------------------------
+CONTRACTS.append(Contract(
+    "tal.py::parse_substitution",
+    params={"clause": "Token"},
+    ensures=[
+        "is_token(result[1])", "same_origin(result[1], clause)",
+        "clause.pos <= result[1].pos and result[1].pos + len(result[1]) <= clause.pos + len(clause)",
+        "text(result[1]) == text(clause)[result[1].pos - clause.pos:result[1].pos - clause.pos + len(result[1])]",
+        "not anchored(clause) or anchored(result[1])",
+    ],
+    raises={'LanguageError': {'ensures': ["exc.args[1].pos == clause.pos", "text(exc.args[1]) == text(clause)",
+                                           "same_origin(exc.args[1], clause)"]}},
+    result="tuple[any,Token]", serves=["C11", "C12"],
+    ghost={"search": {"alphabet": "a s:", "maxlen": 4, "src_maxlen": 5, "unanchored": False}},
+    notes="SUBST_RE is an abstract match (spans inside the string); parser.groups inlined"))
